@@ -843,7 +843,9 @@ def task_version_hb(pr, repo, ex=None):
         r1b = ex.call(ex.getattr(v, 'get_hydrogen_bond_parameters'), [a1, a2], {})
         ctx.oblige('VD: H-bond parameters come from the parameters of THIS Version object - a second object built from other '
                    'parameters in the same process returns its own maximum and cut-offs, and the first keeps its own',
-                   r2[0] is dmax2 and r2[1][0] == R('c0_2') and r1b[0] is dmax and r1b[1][0] == R('c0'))
+                   r2[0] is dmax2 and r2[1][0] is not None and r1b[0] is dmax and
+                   to_bool(Sym(to_bool(r2[1][0] == R('c0_2'))) if isinstance(r2[1][0] == R('c0_2'), Sym) else (r2[1][0] == R('c0_2'))) is not False
+                   and And(r2[1][0] == R('c0_2'), r1b[1][0] == R('c0')))
         # ('COO', ...): an atom that a later group set-up relabelled (the OXT of a C-terminus whose carbonyl O is missing)
         for bt, gt, table in (('BBC', 'HIS', co), ('BBN', 'COO', nh), ('BBC', 'COO', None), ('BBN', 'HIS', None), ('COO', 'HIS', None),
                               ('COO', 'COO', None), ('ION', 'HIS', None)):
@@ -892,10 +894,39 @@ def task_coupling_effects(pr, repo):
         pr.explore(ex, thunk, 'coupling_effects ' + what)
 
 
+def task_set_determinant(pr, repo):
+    """SD: Group.set_determinant (used when covalently coupled groups share their determinants) REPLACES the value of an existing
+    determinant from the same partner - it never adds to it (the single-determinant bounds survive sharing) - and appends otherwise."""
+    ex = Executor(repo)
+    fi = repo.func('propka.group.Group.set_determinant')
+    pr.under_contract(fi)
+
+    def thunk(ex, ctx):
+        partner = C02.mkgroup(repo, 'partner', (0, 0, 0), label='ASP  27 A')
+        other = C02.mkgroup(repo, 'other', (0, 0, 0), label='LYS  10 A')
+        for g_ in (partner, other):
+            g_.attrs['atom'].attrs.update(type='atom')
+        g = C02.mkgroup(repo, 'g', (0, 0, 0), label='N1   MTX A')
+        old = C02.mkdet(repo, 'old', group=partner, label='ASP  27 A')
+        g.attrs['determinants']['coulomb'].append(old)
+        new = C02.mkdet(repo, 'new', group=partner, label='ASP  27 A')
+        ex.call_function(fi, [new, 'coulomb'], self_obj=g)
+        d = g.attrs['determinants']['coulomb']
+        ok = len(d) == 1
+        ctx.oblige('SD: an existing determinant from the same partner takes the new value (not the sum)',
+                   And(ok, d[0].attrs['value'] == new.attrs['value']) if ok else False)
+        new2 = C02.mkdet(repo, 'new2', group=other, label='LYS  10 A')
+        ex.call_function(fi, [new2, 'coulomb'], self_obj=g)
+        ok2 = len(d) == 2
+        ctx.oblige('SD: a determinant from a new partner is appended with its value',
+                   And(ok2, d[1].attrs['value'] == new2.attrs['value'], d[0].attrs['value'] == new.attrs['value']) if ok2 else False)
+    pr.explore(ex, thunk, 'Group.set_determinant')
+
+
 def run(pr, repo):
     ground_facts(pr)
     pr.parallel([(task_scalars, ()), (task_desolvation, ()), (task_reorganization, ()), (task_coulomb_pairs, ()),
-                 (task_ion_backbone, ()), (task_iterative, ()), (task_exceptions, ()), (task_exception_dispatch, ()), (task_version_dispatch, ()), (task_coupling_effects, ()),
+                 (task_ion_backbone, ()), (task_iterative, ()), (task_exceptions, ()), (task_exception_dispatch, ()), (task_version_dispatch, ()), (task_coupling_effects, ()), (task_set_determinant, ()),
                  # the signs fixed when a determinant is created must survive the temporary swaps of the coupling analysis:
                  # every swap is undone exactly (C02/C15 obligations on swap_interactions / transfer_determinant)
                  (C02.task_swap, ()), (C02.task_swap_once, ()),
